@@ -336,8 +336,124 @@ func c07Multi(name string, mode int) *explore.Scenario {
 	}
 }
 
+// c07DepScenario: R1 (a read, id 0, tag 1) blocks until cancelled; RK (any
+// other kind, id 2, tag 3) is handled by a handler that returns only after
+// R1's has (a clunk queued behind a blocked read on the same fid); then
+// Tflush(R1) on tag 2. The flush must be acknowledged and RK answered; no
+// reply to R1 may follow the acknowledgement. A dispatch loop that handles RK
+// inline can never see the flush.
+func c07DepScenario(kind string, rk p9p.Message) *explore.Scenario {
+	type depState struct {
+		*serveRun
+		clientEnd string
+	}
+	return &explore.Scenario{
+		Name:  "flush-releases-dependent/" + kind,
+		Cache: true,
+		Body: func() any {
+			st := &depState{serveRun: newServeRun(false, &scriptHandler{Mode: DepOn0})}
+			st.startServer()
+			vsched.Go("client", func() {
+				if !st.negotiate(65536) {
+					st.clientEnd = "negotiation failed"
+					return
+				}
+				if st.send(1, c06Msg(0, 0)) != nil || st.send(3, rk) != nil || st.send(2, p9p.MessageTflush{Oldtag: 1}) != nil {
+					st.clientEnd = "write failed"
+					return
+				}
+				ack, rkDone := false, false
+				for !ack || !rkDone {
+					fc, ok := st.recv()
+					if !ok {
+						st.clientEnd = "stream ended early"
+						return
+					}
+					if fc != nil && fc.Tag == 2 {
+						ack = true
+					}
+					if fc != nil && fc.Tag == 3 {
+						rkDone = true
+					}
+				}
+				st.cli.Close()
+				st.clientEnd = "ok"
+			})
+			return st
+		},
+		Check: func(state any, e *vsched.Exec) (string, []explore.Finding) {
+			st := state.(*depState)
+			var fs []explore.Finding
+			bad := func(sig, format string, a ...any) {
+				fs = append(fs, explore.Finding{Sig: "C07:" + sig, Msg: fmt.Sprintf(format, a...) + "\nlog: " + strings.Join(e.Log, " | ")})
+			}
+			if len(e.Panics) > 0 {
+				bad("panic", "a task panicked: %s", panicList(e))
+			}
+			if e.Horizon {
+				return "horizon", fs
+			}
+			for _, f := range st.cli.TryFrames() {
+				if fc, _, err := decodeFrame(f); err == nil {
+					st.replies = append(st.replies, fc)
+				}
+			}
+			var order []string
+			ack := false
+			nack, nrk := 0, 0
+			for _, r := range st.replies {
+				switch r.Tag {
+				case 2:
+					ack = true
+					nack++
+					order = append(order, "Rflush")
+				case 3:
+					nrk++
+					order = append(order, "RK")
+					if want, err := resultFor(rk); err == nil && fmt.Sprintf("%T", want) != fmt.Sprintf("%T", r.Message) {
+						bad("wrong-reply", "the %s request was answered with %s", kind, Brief(r.Message))
+					}
+				case 1:
+					order = append(order, "R1")
+					if ack {
+						bad("reply-after-flush", "the flushed request's reply %s was sent after the flush had been acknowledged", Brief(r.Message))
+					}
+				default:
+					bad("stray-reply", "unexpected reply %s", Brief(r))
+				}
+			}
+			if st.clientEnd != "ok" && len(fs) == 0 {
+				bad("client-stuck", "the flush of the blocked request was never acknowledged, or the %s request behind it never answered (client: %q, %d acknowledgements, %d replies to it); blocked: %s", kind, st.clientEnd, nack, nrk, blockedList(e))
+			}
+			if nack > 1 || nrk > 1 {
+				bad("multiple-replies", "%d flush replies, %d replies to the %s request", nack, nrk, kind)
+			}
+			return strings.Join(order, ",") + " client=" + st.clientEnd, fs
+		},
+	}
+}
+
+func c07DepScenarios() []*explore.Scenario {
+	d := p9p.Dir{Name: "n"}
+	kinds := []struct {
+		n string
+		m p9p.Message
+	}{
+		{"Tclunk", p9p.MessageTclunk{Fid: 2}}, {"Tstat", p9p.MessageTstat{Fid: 2}}, {"Tread", p9p.MessageTread{Fid: 2, Count: 4}},
+		{"Twrite", p9p.MessageTwrite{Fid: 2, Data: []byte{1}}}, {"Topen", p9p.MessageTopen{Fid: 2}}, {"Twalk", p9p.MessageTwalk{Fid: 2, Newfid: 9, Wnames: []string{"a"}}},
+		{"Tcreate", p9p.MessageTcreate{Fid: 2, Name: "n", Perm: 0644}}, {"Tremove", p9p.MessageTremove{Fid: 2}}, {"Twstat", p9p.MessageTwstat{Fid: 2, Stat: d}},
+		{"Tattach", p9p.MessageTattach{Fid: 2, Afid: p9p.NOFID, Uname: "u"}}, {"Tauth", p9p.MessageTauth{Afid: 2, Uname: "u"}},
+	}
+	var out []*explore.Scenario
+	for _, k := range kinds {
+		out = append(out, c07DepScenario(k.n, k.m))
+	}
+	return out
+}
+
 func c07Scenarios() []*explore.Scenario {
 	var out []*explore.Scenario
+	out = append(out, c07DepScenarios()...)
 	modes := []struct {
 		n    string
 		mode int
@@ -356,19 +472,21 @@ func c07Scenarios() []*explore.Scenario {
 
 func c07(c *core.Ctx) {
 	c.Budget(90*time.Second, 12*time.Minute)
-	c.SetRule("scenarios: R1; Tflush(R1) (or of an unused tag); after the flush's reply was read, R2 reusing R1's tag (or another); handlers ignoring / racing / blocking on cancellation; every interleaving of the real ServeConn goroutines incl. every ready select case, up to the preemption bound; outcome = order of replies seen by the client + whether R1's context was done at the acknowledgement")
+	c.SetRule("scenarios: R1; Tflush(R1) (or of an unused tag); after the flush's reply was read, R2 reusing R1's tag (or another); handlers ignoring / racing / blocking on cancellation; and, for each of 11 request kinds, a request whose handler returns only after the blocked R1's does, followed by the flush of R1 (the flush must still be processed); every interleaving of the real ServeConn goroutines incl. every ready select case, up to the preemption bound; outcome = order of replies seen by the client + whether R1's context was done at the acknowledgement")
 	c.Assume("scheduling points at channel, select, mutex, once, sync.Map, context-cancel and conn operations; sequentially consistent interleavings only")
-	var small, big []*explore.Scenario
+	var small, big, dep []*explore.Scenario
 	for _, sc := range c07Scenarios() {
-		if strings.HasPrefix(sc.Name, "double-flush") {
+		if strings.HasPrefix(sc.Name, "flush-releases-dependent/") {
+			dep = append(dep, sc)
+		} else if strings.HasPrefix(sc.Name, "double-flush") {
 			big = append(big, sc)
 		} else {
 			small = append(small, sc)
 		}
 	}
 	if c.Quick() {
-		runPlans(c, append(both(small, 2, 4, 0), both(big, -1, 3, 0)...))
+		runPlans(c, append(append(both(small, 2, 4, 0), both(big, -1, 3, 0)...), both(dep, -1, 2, 0)...))
 	} else {
-		runPlans(c, append(both(small, 4, 7, 0), both(big, 1, 5, 0)...))
+		runPlans(c, append(append(both(small, 4, 7, 0), both(big, 1, 5, 0)...), both(dep, 2, 4, 0)...))
 	}
 }
